@@ -1307,7 +1307,12 @@ func gen(rng *vh.Rng, n int, emit func(id string, sel int, in []int64, kind stri
 	}
 	// (f) the shipped plugins' job comparators on real jobs
 	r = rng.Fork()
-	for i := 0; i < n/12+2; i++ {
+	// every such case builds a scheduler cache of its own (informers stay alive): bounded
+	nReal := n/12 + 2
+	if nReal > 1500 {
+		nReal = 1500
+	}
+	for i := 0; i < nReal; i++ {
 		nj := r.Range(2, 4)
 		ks := []kitem{}
 		for j := 0; j < nj; j++ {
